@@ -188,7 +188,7 @@ class Gen:
             "rseed": r.randrange(1 << 16),
         }
         base_w = {"new": 2.0, "random": 0.6, "from_qlassf": 0.5, "append_circuit": 3.0, "add": 2.5, "iadd": 2.5, "iadd_gate": 1.0, "repeat": 2.0,
-                  "copy": 2.0, "gate": 4.0, "remove_identities": 2.0, "qft_iqft": 1.5, "add_qubit": 0.5, "forget": 0.5}
+                  "copy": 2.0, "gate": 4.0, "remove_identities": 2.0, "qft_iqft": 1.5, "add_qubit": 0.5, "forget": 0.5, "opaque": 1.5}
         self.w = {k: v * r.choice([0, 0.5, 1, 1, 2, 3]) for k, v in sorted(base_w.items())}
         self.w["new"] = max(self.w["new"], 1.0)
         self.ops = []
@@ -197,7 +197,10 @@ class Gen:
 
     def add(self, kind, a, uses, res=None):
         oid = len(self.ops)
-        self.ops.append({"id": oid, "kind": kind, "a": a, "uses": sorted(set(uses))})
+        # the widths the generator assumed for the operands: an op whose operand has another width
+        # at run time (get_free_ancilla may or may not add a qubit) is skipped, not judged
+        widths = {str(e["id"]): e["n"] for e in self.pool if e["id"] in uses}
+        self.ops.append({"id": oid, "kind": kind, "a": a, "uses": sorted(set(uses)), "widths": widths})
         if res is not None:
             res["id"] = oid
             self.pool.append(res)
@@ -206,7 +209,7 @@ class Gen:
         return oid
 
     def pick(self, pred=lambda e: True):
-        c = [e for e in self.pool if pred(e)]
+        c = [e for e in self.pool if pred(e) and e["n"] <= MAX_Q + 1]
         return self.r.choice(c) if c else None
 
     def b_new(self):
@@ -311,6 +314,8 @@ class Gen:
             return False
         r = self.r
         specs = [rand_spec(r, a["n"], self.gset)]
+        if r.random() < 0.25:
+            specs[0]["by_name"] = True  # address the qubits by their current names instead of indices
         if r.random() < 0.4 and specs[0]["g"] != "BARRIER":
             # the same gate again (a cancelling or non-cancelling identical adjacent pair),
             # optionally separated by / preceded by a barrier
@@ -337,7 +342,32 @@ class Gen:
             return False
         r = self.r
         wl = r.sample(range(a["n"]), r.randint(1, a["n"]))
-        self.add("qft_iqft", {"target": a["id"], "wl": wl}, [a["id"]])
+        self.add("qft_iqft", {"target": a["id"], "wl": wl, "by_name": r.random() < 0.25}, [a["id"]])
+        return True
+
+    def b_opaque(self):
+        """public mutators whose effect the model does not predict: the target is re-synchronised
+        from the real object, everybody else must stay as they were (and stay correct later)"""
+        r = self.r
+        a = self.pick()
+        if a is None:
+            return False
+        kinds = ["set_name", "del_name", "add_named_qubit"]
+        if a["enh"]:
+            kinds += ["add_ancilla", "get_free_ancilla", "uncompute_all", "mark_uncompute", "map_qubit"]
+        k = r.choice(kinds)
+        arg = {"what": k, "i": r.randrange(a["n"]), "j": r.randrange(a["n"]), "promote": r.random() < 0.5, "tag": r.randrange(1000)}
+        self.add("opaque", dict(arg, target=a["id"]), [a["id"]])
+        if k == "add_named_qubit":
+            a["n"] += 1
+        elif k == "add_ancilla":
+            a["n"] += 1
+            a["free"] = a.get("free", 0) + 1
+        elif k == "get_free_ancilla":
+            if a.get("free", 0) > 0:
+                a["free"] -= 1
+            else:
+                a["n"] += 1
         return True
 
     def b_add_qubit(self):
@@ -388,6 +418,11 @@ def build(qc, spec):
     from qlasskit.qcircuit import gates
 
     g, w, p = spec["g"], spec["w"], spec.get("p")
+    if spec.get("by_name") and g not in ("I", "P"):  # I and P go through append(), which takes indices only
+        try:
+            w = [qc.get_key_by_index(i) for i in w]
+        except Exception:
+            w = spec["w"]  # a qubit without a name: fall back to indices
     if g == "BARRIER":
         qc.barrier()
     elif g == "H":
@@ -438,9 +473,16 @@ def gate_object(spec):
 
 
 def struct_fp(qc):
+    """gate list, qubit count, qubit map -- and the state that decides what a later uncompute() /
+    get_free_ancilla() does (gates_computed, ancilla sets): an operand whose bookkeeping was
+    changed by an operator has been modified"""
     import fingerprint as F
 
     d = F.fp_circuit(qc)
+    d["internal"] = {"gates_computed": F.fp_gates(getattr(qc, "gates_computed", []))}
+    for f in ("ancilla_lst", "free_ancilla_lst", "marked_ancillas"):
+        if hasattr(qc, f):
+            d["internal"][f] = sorted(getattr(qc, f))
     return d
 
 
@@ -479,10 +521,16 @@ def run_segment(plan, ctx, detail=False, table=None):
             rec["outcome"] = "skipped"
             records.append(rec)
             continue
+        if any(objs[int(u)].num_qubits != w for u, w in op.get("widths", {}).items() if int(u) in objs):
+            rec["outcome"] = "skipped:width"
+            records.append(rec)
+            probe("skipped_width_drift")
+            continue
         tgt = a.get("target")
         other = a.get("other")
         expect_fault = "fault" in a
         new_obj, new_model = None, None
+        opaque_resync = False
         mutated = None  # id of the entry this op is allowed to change
         outcome = "ok"
         n_before = len(objs[tgt].gates) if tgt in objs else 0
@@ -562,9 +610,40 @@ def run_segment(plan, ctx, detail=False, table=None):
                 new_model = model[tgt]
             elif k == "qft_iqft":
                 mutated = tgt
-                objs[tgt].qft(list(a["wl"]))
-                objs[tgt].iqft(list(a["wl"]))
+                wl_ = list(a["wl"])
+                if a.get("by_name"):
+                    try:
+                        wl_ = [objs[tgt].get_key_by_index(i) for i in wl_]
+                    except Exception:
+                        wl_ = list(a["wl"])
+                objs[tgt].qft(list(wl_))
+                objs[tgt].iqft(list(wl_))
                 new_model = model[tgt]
+            elif k == "opaque":
+                mutated = tgt
+                qc = objs[tgt]
+                w = a["what"]
+                nq = qc.num_qubits
+                i, j = a["i"] % max(nq, 1), a["j"] % max(nq, 1)
+                if w == "set_name":
+                    qc[f"n{a['tag']}"] = i
+                elif w == "del_name":
+                    del qc[qc.get_key_by_index(i)]
+                elif w == "add_named_qubit":
+                    qc.add_qubit(f"x{a['tag']}")
+                elif w == "add_ancilla":
+                    qc.add_ancilla()
+                elif w == "get_free_ancilla":
+                    qc.get_free_ancilla()
+                elif w == "uncompute_all":
+                    qc.uncompute_all(keep=[i])
+                elif w == "mark_uncompute":
+                    qc.mark_ancilla(i)
+                    qc.mark_ancilla(j)
+                    qc.uncompute()
+                elif w == "map_qubit":
+                    qc.map_qubit(f"m{a['tag']}", i, promote=a["promote"])
+                opaque_resync = True
             elif k == "add_qubit":
                 mutated = tgt
                 n0 = objs[tgt].num_qubits
@@ -619,11 +698,24 @@ def run_segment(plan, ctx, detail=False, table=None):
             probe("natural_fault_" + a["fault"] + ("_raised" if outcome != "ok" else "_not_raised"))
         shapes.append((k, tgt, other, outcome.split(":")[0]))
 
+        if k == "opaque":
+            probe("opaque:" + a["what"] + ("" if outcome == "ok" else "_raised"))
+            if tgt in objs:
+                try:
+                    if objs[tgt].num_qubits > MAX_Q + 2:
+                        raise RuntimeError("too wide for the model")
+                    model[tgt] = unitary_of_circuit(objs[tgt])
+                except Exception:
+                    objs.pop(tgt, None)
+                    model.pop(tgt, None)
+                    sfp.pop(tgt, None)
         # ---- A0: the statement's operators complete on well-formed operands
-        if outcome != "ok" and not expect_fault and k not in ("from_qlassf",):
+        if outcome != "ok" and not expect_fault and k not in ("from_qlassf", "opaque"):
             violation = viol("A0", op, "target", [outcome], msg=rec.get("msg"))
         # ---- bookkeeping of the model
-        if outcome == "ok" and not expect_fault:
+        if k == "opaque":
+            pass
+        elif outcome == "ok" and not expect_fault:
             if new_obj is not None:
                 objs[oid] = new_obj
                 model[oid] = new_model
@@ -636,7 +728,7 @@ def run_segment(plan, ctx, detail=False, table=None):
             except Exception:
                 objs.pop(mutated, None)
         # ---- A1 on the entry this op produced or was allowed to change
-        if violation is None and outcome == "ok" and not expect_fault:
+        if violation is None and outcome == "ok" and not expect_fault and k != "opaque":
             chk = oid if new_obj is not None else mutated
             if chk is not None and chk in objs:
                 qc = objs[chk]
